@@ -124,6 +124,10 @@ class ProgRunner:
                                                   "description: the property prescribes the size-mismatch error, implementation says %s" % iv))
                 if c.get("expect") in ("sat", "unsat") and iv in ("sat", "unsat") and iv != c["expect"]:
                     self.impl_fail.append((c, io, "property says %s, implementation says %s" % (c["expect"], iv)))
+                elif c.get("expect") in ("sat", "unsat") and iv.startswith("prove:"):
+                    # the prover answered with something else than a proof / the unsatisfied-circuit error (e.g. a commitment
+                    # error after a missed detection): the property allows only those two (and the size mismatch)
+                    self.impl_fail.append((c, io, "property says %s, the prover returned another error: %s" % (c["expect"], iv)))
                 if c.get("expect") in ("sat", "unsat") and mv in ("sat", "unsat") and mv != c["expect"]:
                     # the model disagrees with the property's own relation: my machinery is wrong
                     self.model_mismatch.append((c, io, mo, "model %s vs property expectation %s" % (mv, c["expect"])))
@@ -203,15 +207,16 @@ class LineRunner:
                 if bound is not None and pk > bound:
                     self.impl_fail.append((c, io, "peak allocation %d exceeds the bound %d" % (pk, bound)))
             # implementation-only route flags (own verifier / compressed route / serialized route)
-            flags = dict(t.split("=", 1) for t in io.split(" ") if t.split("=", 1)[0] in ("own", "cmp", "ser") and "=" in t)
+            flags = dict(t.split("=", 1) for t in io.split(" ") if t.split("=", 1)[0] in ("own", "cmp", "ser", "cons") and "=" in t)
             if flags:
-                io = " ".join(t for t in io.split(" ") if t.split("=", 1)[0] not in ("own", "cmp", "ser"))
+                io = " ".join(t for t in io.split(" ") if t.split("=", 1)[0] not in ("own", "cmp", "ser", "cons"))
                 for kf, vf in flags.items():
                     self.tag("route-%s=%s" % (kf, vf.split(":")[0]))
                     if vf != "ok":
                         self.impl_fail.append((c, io, {"own": "the prover's proof is rejected by its own verifier",
                                                        "cmp": "keys from the compressed description differ from direct compilation",
-                                                       "ser": "prover/verifier decoded from their bytes behave differently"}[kf] + " (%s)" % vf))
+                                                       "ser": "prover/verifier decoded from their bytes behave differently",
+                                                       "cons": "the generated parameters are not consecutive powers of one secret matching the G2 pair"}[kf] + " (%s)" % vf))
             if io.startswith("panic") or io.startswith("crash"):
                 if not c.get("panic_ok") or base != io:
                     self.impl_fail.append((c, io, "implementation panicked"))
